@@ -424,4 +424,264 @@ theorem formEdgeCollapse_formed {φ : Int → Int → Int → G} (hφ : Alt φ) 
             · rw [d6, c6, hDt, hCt, ← hBsum]
               simp only [ledgerVal, hBsegs, coneSum, List.map_nil, List.sum_nil, sub_zero]
 
+
+/-! ### `BallMatched` from global conformity -/
+
+/-- `φ` restricted to the triples that contain `n0` or `n1` -/
+def φBall (φ : Int → Int → Int → G) (n0 n1 : Int) (a b c : Int) : G :=
+  if (a = n0 ∨ b = n0 ∨ c = n0) ∨ (a = n1 ∨ b = n1 ∨ c = n1) then φ a b c else 0
+
+theorem φBall_alt {φ : Int → Int → Int → G} (hφ : Alt φ) (n0 n1 : Int) : Alt (φBall φ n0 n1) := by
+  refine ⟨fun a b c => ?_, fun a b c => ?_⟩
+  · unfold φBall
+    have e : ((b = n0 ∨ c = n0 ∨ a = n0) ∨ (b = n1 ∨ c = n1 ∨ a = n1)) ↔
+        ((a = n0 ∨ b = n0 ∨ c = n0) ∨ (a = n1 ∨ b = n1 ∨ c = n1)) := by
+      constructor <;> intro h <;> omega
+    by_cases h : (a = n0 ∨ b = n0 ∨ c = n0) ∨ (a = n1 ∨ b = n1 ∨ c = n1)
+    · rw [if_pos h, if_pos (e.mpr h)]; exact hφ.rot a b c
+    · rw [if_neg h, if_neg (fun h' => h (e.mp h'))]
+  · unfold φBall
+    have e : ((b = n0 ∨ a = n0 ∨ c = n0) ∨ (b = n1 ∨ a = n1 ∨ c = n1)) ↔
+        ((a = n0 ∨ b = n0 ∨ c = n0) ∨ (a = n1 ∨ b = n1 ∨ c = n1)) := by
+      constructor <;> intro h <;> omega
+    by_cases h : (a = n0 ∨ b = n0 ∨ c = n0) ∨ (a = n1 ∨ b = n1 ∨ c = n1)
+    · rw [if_pos h, if_pos (e.mpr h)]; exact hφ.swap a b c
+    · rw [if_neg h, if_neg (fun h' => h (e.mp h'))]; simp
+
+theorem φBall_face (φ : Int → Int → Int → G) (n0 n1 : Int) (f : Face) :
+    φF (φBall φ n0 n1) f = if f.has n0 || f.has n1 then φF φ f else 0 := by
+  simp only [φF, φBall, Face.has, Bool.or_eq_true, beq_iff_eq]
+  have e : ((f.n0 = n0 ∨ f.n1 = n0 ∨ f.n2 = n0) ∨ (f.n0 = n1 ∨ f.n1 = n1 ∨ f.n2 = n1)) ↔
+      (((n0 = f.n0 ∨ n0 = f.n1) ∨ n0 = f.n2) ∨ ((n1 = f.n0 ∨ n1 = f.n1) ∨ n1 = f.n2)) := by
+    constructor <;> intro h <;> omega
+  by_cases h : (f.n0 = n0 ∨ f.n1 = n0 ∨ f.n2 = n0) ∨ (f.n0 = n1 ∨ f.n1 = n1 ∨ f.n2 = n1)
+  · rw [if_pos h, if_pos (e.mp h)]
+  · rw [if_neg h, if_neg (fun h' => h (e.mpr h'))]
+
+theorem faceSum_φBall (φ : Int → Int → Int → G) (n0 n1 : Int) (l : List Face) :
+    faceSum (φBall φ n0 n1) l = faceSum φ (l.filter fun f => f.has n0 || f.has n1) := by
+  induction l with
+  | nil => simp [faceSum]
+  | cons f t ih =>
+    simp only [faceSum, List.map_cons, List.sum_cons, List.filter_cons] at ih ⊢
+    rw [φBall_face, ih]
+    by_cases h : (f.has n0 || f.has n1) = true
+    · simp only [h, if_true, List.map_cons, List.sum_cons]
+    · simp only [h, Bool.false_eq_true, if_false, zero_add]
+
+/-- a face of a tet misses exactly one of its nodes: with both `n0 ≠ n1` in the tet every face has one of them -/
+theorem tetFaces_has_one (t : Tet) (n0 n1 : Int) (hne : n0 ≠ n1) (h0 : t.nodes.contains n0 = true)
+    (h1 : t.nodes.contains n1 = true) : ∀ f ∈ tetFaces t, (f.has n0 || f.has n1) = true := by
+  rcases t with ⟨a, b, c, d⟩
+  simp only [Tet.nodes, List.contains_cons, List.contains_nil, Bool.or_false, Bool.or_eq_true, beq_iff_eq] at h0 h1
+  intro f hf
+  rw [tetFaces_eq] at hf
+  simp only [List.mem_cons, List.not_mem_nil, or_false] at hf
+  simp only [Face.has, Bool.or_eq_true, beq_iff_eq]
+  rcases hf with rfl | rfl | rfl | rfl <;> simp only <;> omega
+
+theorem face_has_of_not_contains (t : Tet) (v : Int) (h : t.nodes.contains v = false) :
+    ∀ f ∈ tetFaces t, f.has v = false := by
+  intro f hf
+  by_contra hh
+  have := tetFaces_nodes t f hf v (by simpa using hh)
+  rw [h] at this; cases this
+
+/-- the filter "has `n0` or `n1`" on the faces of a tet is what the collapse loops skip -/
+theorem filterBall_A (t : Tet) (n0 n1 : Int) (hne : n0 ≠ n1) (h0 : t.nodes.contains n0 = true) :
+    ((tetFaces t).filter fun f => f.has n0 || f.has n1) = collapseSkip n0 n1 n0 t := by
+  unfold collapseSkip
+  by_cases h1 : t.nodes.contains n1 = true
+  · simp only [h0, h1, Bool.and_self, if_true]
+    exact List.filter_eq_self.mpr (tetFaces_has_one t n0 n1 hne h0 h1)
+  · simp only [h0, h1, Bool.and_false, Bool.false_eq_true, if_false]
+    apply List.filter_congr
+    intro f hf
+    have := face_has_of_not_contains t n1 (by simpa using h1) f hf
+    rw [this]; simp
+
+theorem filterBall_B (t : Tet) (n0 n1 : Int) (h0 : t.nodes.contains n0 = false) :
+    ((tetFaces t).filter fun f => f.has n0 || f.has n1) = collapseSkip n0 n1 n1 t := by
+  unfold collapseSkip
+  simp only [h0, Bool.false_and, Bool.false_eq_true, if_false]
+  apply List.filter_congr
+  intro f hf
+  have := face_has_of_not_contains t n0 h0 f hf
+  rw [this]; simp
+
+theorem filterBall_none (t : Tet) (n0 n1 : Int) (h0 : t.nodes.contains n0 = false) (h1 : t.nodes.contains n1 = false) :
+    ((tetFaces t).filter fun f => f.has n0 || f.has n1) = [] := by
+  rw [List.filter_eq_nil_iff]
+  intro f hf
+  rw [face_has_of_not_contains t n0 h0 f hf, face_has_of_not_contains t n1 h1 f hf]; simp
+
+/-- the registration-order walk of a cell store -/
+def walk {β : Type} (s : Cells β) : List β := s.order.filterMap fun c => s.slots.rows.getD c none
+
+theorem having_eq {β : Type} (s : Cells β) (nodes : β → List Int) (v : Int) :
+    (s.having nodes v).map (·.2) = (walk s).filter fun x => (nodes x).contains v := by
+  unfold Cells.having walk
+  induction s.order with
+  | nil => simp
+  | cons c rest ih =>
+    simp only [List.filterMap_cons]
+    cases hrow : s.slots.rows.getD c none with
+    | none => simp only [hrow]; exact ih
+    | some x =>
+      simp only [hrow]
+      by_cases hv : (nodes x).contains v = true
+      · simp only [hv, if_true, List.filter_cons, List.map_cons]; rw [ih]
+      · simp only [hv, Bool.false_eq_true, if_false, List.filter_cons]; exact ih
+
+theorem mem_having_iff {β : Type} (s : Cells β) (nodes : β → List Int) (v : Int) (i : Nat) (x : β) :
+    (i, x) ∈ s.having nodes v ↔ i ∈ s.order ∧ s.slots.rows.getD i none = some x ∧ (nodes x).contains v = true := by
+  unfold Cells.having
+  simp only [List.mem_filterMap]
+  constructor
+  · rintro ⟨c, hc, hx⟩
+    cases hrow : s.slots.rows.getD c none with
+    | none => rw [hrow] at hx; cases hx
+    | some y =>
+      rw [hrow] at hx
+      simp only at hx
+      split at hx
+      · next hh =>
+        simp only [Option.some.injEq, Prod.mk.injEq] at hx
+        obtain ⟨rfl, rfl⟩ := hx
+        exact ⟨hc, hrow, hh⟩
+      · cases hx
+  · rintro ⟨hc, hrow, hh⟩
+    exact ⟨i, hc, by simp only [hrow, hh, if_true]⟩
+
+/-- the second loop's fresh cells are the cells around `n1` that do not contain `n0` -/
+theorem ballB_eq {β : Type} (s : Cells β) (nodes : β → List Int) (n0 n1 : Int) :
+    ballB s nodes n0 n1 = (s.having nodes n1).filter fun p => !((nodes p.2).contains n0) := by
+  unfold ballB ballA freshCells
+  apply List.filter_congr
+  intro p hp
+  obtain ⟨i, x⟩ := p
+  have hp' := (mem_having_iff s nodes n1 i x).mp hp
+  congr 1
+  by_cases hc : (nodes x).contains n0 = true
+  · rw [hc]
+    apply List.contains_iff_mem.mpr
+    exact List.mem_map.mpr ⟨(i, x), (mem_having_iff s nodes n0 i x).mpr ⟨hp'.1, hp'.2.1, hc⟩, rfl⟩
+  · have hc' : (nodes x).contains n0 = false := by simpa using hc
+    rw [hc']
+    apply Bool.eq_false_iff.mpr
+    intro hm
+    obtain ⟨q, hq, hqe⟩ := List.mem_map.mp (List.contains_iff_mem.mp hm)
+    obtain ⟨j, y⟩ := q
+    simp only [Int.natCast_inj] at hqe
+    subst hqe
+    have hq' := (mem_having_iff s nodes n0 j y).mp hq
+    rw [hp'.2.1] at hq'
+    simp only [Option.some.injEq] at hq'
+    rw [hq'.2.1] at hc'
+    rw [hq'.2.2] at hc'; cases hc'
+
+theorem sum_filter_split {β : Type} (l : List β) (p : β → Bool) (F : β → G) :
+    (l.map F).sum = ((l.filter p).map F).sum + ((l.filter fun x => !(p x)).map F).sum := by
+  induction l with
+  | nil => simp
+  | cons a t ih =>
+    simp only [List.map_cons, List.sum_cons, List.filter_cons]
+    cases hp : p a with
+    | true => simp only [if_true, Bool.not_true, Bool.false_eq_true, if_false, List.map_cons, List.sum_cons, ih]; abel
+    | false => simp only [Bool.false_eq_true, if_false, Bool.not_false, if_true, List.map_cons, List.sum_cons, ih]; abel
+
+theorem ball_sum {β : Type} (s : Cells β) (nodes : β → List Int) (n0 n1 : Int) (F : β → G)
+    (hz : ∀ x, (nodes x).contains n0 = false → (nodes x).contains n1 = false → F x = 0) :
+    ((walk s).map F).sum =
+      ((ballA s nodes n0).map fun p => F p.2).sum + ((ballB s nodes n0 n1).map fun p => F p.2).sum := by
+  rw [sum_filter_split (walk s) (fun x => (nodes x).contains n0) F]
+  congr 1
+  · rw [← having_eq s nodes n0, List.map_map]; rfl
+  · rw [sum_filter_zero _ (fun x => (nodes x).contains n1) F]
+    · rw [ballB_eq]
+      have : ((s.having nodes n1).filter fun p => !((nodes p.2).contains n0)).map (fun p => F p.2) =
+          ((((s.having nodes n1).map (·.2)).filter fun x => !((nodes x).contains n0)).map F) := by
+        rw [List.filter_map, List.map_map]; rfl
+      rw [this, having_eq s nodes n1, List.filter_filter, List.filter_filter]
+      congr 2
+      apply List.filter_congr
+      intro x _
+      exact Bool.and_comm _ _
+    · intro x hx hp
+      have := (List.mem_filter.mp hx).2
+      exact hz x (by simpa using this) hp
+
+/-- **localisation for the collapse**: on a conforming grid with consistent adjacency and `n0 ≠ n1`, the faces the
+    collapse loops skip are matched by the boundary tris that contain `n0` or `n1` -/
+theorem ballMatched_of_conforming {φ : Int → Int → Int → G} (hφ : Alt φ) (g : Grid α) (n0 n1 : Int) (hne : n0 ≠ n1)
+    (hot : OrderOK g.tets) (hos : OrderOK g.tris)
+    (hconf : ∀ χ : Int → Int → Int → G, Alt χ → meshBd χ g = 0) : BallMatched φ g n0 n1 := by
+  have h := hconf (φBall φ n0 n1) (φBall_alt hφ n0 n1)
+  unfold meshBd tetsBd at h
+  have e1 : (g.tets.valid.map fun t => faceSum (φBall φ n0 n1) (tetFaces t)).sum = ballSkip φ g n0 n1 := by
+    simp only [faceSum_φBall]
+    rw [← (hot.map fun t => faceSum φ ((tetFaces t).filter fun f => f.has n0 || f.has n1)).sum_eq]
+    have := ball_sum g.tets Tet.nodes n0 n1
+      (fun t => faceSum φ ((tetFaces t).filter fun f => f.has n0 || f.has n1))
+      (fun t h0 h1 => by rw [filterBall_none t n0 n1 h0 h1]; simp [faceSum])
+    unfold walk at this
+    rw [this]
+    unfold ballSkip
+    congr 1
+    · apply congrArg
+      apply List.map_congr_left
+      intro p hp
+      obtain ⟨i, x⟩ := p
+      have := ((mem_having_iff g.tets Tet.nodes n0 i x).mp hp).2.2
+      simp only [filterBall_A x n0 n1 hne this]
+    · apply congrArg
+      apply List.map_congr_left
+      intro p hp
+      rw [ballB_eq] at hp
+      have := (List.mem_filter.mp hp).2
+      simp only [filterBall_B p.2 n0 n1 (by simpa using this)]
+  have e2 : (g.tris.valid.map fun t => φBall φ n0 n1 t.n0 t.n1 t.n2).sum =
+      (((ballA g.tris Tri.nodes n0) ++ (ballB g.tris Tri.nodes n0 n1)).map fun p => φ p.2.n0 p.2.n1 p.2.n2).sum := by
+    rw [← (hos.map fun t => φBall φ n0 n1 t.n0 t.n1 t.n2).sum_eq]
+    have := ball_sum g.tris Tri.nodes n0 n1 (fun t => φBall φ n0 n1 t.n0 t.n1 t.n2)
+      (fun t h0 h1 => by
+        simp only [Tri.nodes, List.contains_cons, List.contains_nil, Bool.or_false, Bool.or_eq_false_iff,
+          beq_eq_false_iff_ne, ne_eq] at h0 h1
+        simp only [φBall]
+        rw [if_neg]
+        intro hh
+        rcases hh with (e | e | e) | (e | e | e)
+        · exact h0.1 e.symm
+        · exact h0.2.1 e.symm
+        · exact h0.2.2 e.symm
+        · exact h1.1 e.symm
+        · exact h1.2.1 e.symm
+        · exact h1.2.2 e.symm)
+    unfold walk at this
+    rw [this, List.map_append, List.sum_append]
+    congr 1
+    · apply congrArg
+      apply List.map_congr_left
+      intro p hp
+      obtain ⟨i, x⟩ := p
+      have hc := ((mem_having_iff g.tris Tri.nodes n0 i x).mp hp).2.2
+      simp only [Tri.nodes, List.contains_cons, List.contains_nil, Bool.or_false, Bool.or_eq_true, beq_iff_eq] at hc
+      simp only [φBall]
+      rw [if_pos]
+      left
+      omega
+    · apply congrArg
+      apply List.map_congr_left
+      intro p hp
+      obtain ⟨i, x⟩ := p
+      have hp1 := freshCells_mem _ _ _ hp
+      have hc := ((mem_having_iff g.tris Tri.nodes n1 i x).mp hp1).2.2
+      simp only [Tri.nodes, List.contains_cons, List.contains_nil, Bool.or_false, Bool.or_eq_true, beq_iff_eq] at hc
+      simp only [φBall]
+      rw [if_pos]
+      right
+      omega
+  rw [e1, e2] at h
+  exact sub_eq_zero.mp h
+
 end Refine.Lemmas.Cavity2
